@@ -30,8 +30,8 @@ type seqCheck struct {
 var seqChecks = map[string]seqCheck{
 	"C01": {families: []string{"core", "cfg", "roll", "inputs", "inputs-nt", "helpers"}},
 	"C02": {families: []string{"tail", "core"}},
-	"C03": {families: []string{"core", "cfg", "roll", "tail"}},
-	"C04": {families: []string{"core", "cfg", "roll", "tail"}},
+	"C03": {families: []string{"core", "cfg", "roll", "tail", "inputs"}},
+	"C04": {families: []string{"core", "cfg", "roll", "tail", "inputs"}},
 	"C09": {families: []string{"collide"}},
 	"C10": {families: []string{"times", "core", "cfg", "roll", "inputs", "helpers"}},
 	"C11": {families: []string{"ixfiles"}, thorough: []string{"ixfiles", "ixfiles-all"}, post: runIndexSched},
